@@ -64,7 +64,7 @@ func genC16(seed uint64, run int, tier string) Scenario {
 	sc.ReadSize = pick(r, 1, 7, 64, 1024, 8192, 65536)
 	sc.DataSeed = r.Uint64()
 	sc.SrvSeg = pick(r, "whole", "random")
-	sc.CloseKind = pick(r, "client", "peer", "client-frozen-peer")
+	sc.CloseKind = pick(r, "client", "peer", "client-frozen-peer", "peer-at-once")
 	sc.Reopen = r.IntN(4) == 0
 	sc.WriteAtClose = r.IntN(3) == 0
 	around := func() int {
@@ -217,7 +217,11 @@ func runC16(env *Env, s Scenario) {
 				}
 				off += n
 			}
-			<-peerClose
+			if sc.CloseKind != "peer-at-once" {
+				<-peerClose
+			}
+			// ("peer-at-once": the peer goes away right behind its last byte, while the client
+			// may still have much of it unread)
 			closer()
 		}
 		if sc.Transport == "telnet" {
@@ -280,16 +284,32 @@ func runC16(env *Env, s Scenario) {
 					off += n
 				}
 			}()
+			if sc.CloseKind == "peer-at-once" {
+				// the client is slow to start reading: the peer's close is already there
+				time.Sleep(30 * time.Millisecond)
+			}
 			for len(got) < len(fromSrv) {
 				b, err := tr.Read()
 				got = append(got, b...)
 				if err != nil {
 					lastReadErr = err
+					if sc.CloseKind == "peer-at-once" {
+						// what matters in this variant is what was returned before the end
+						unblockedAfter = 0
+						<-wdone
+						_ = tr.Close(true)
+					}
 
 					return
 				}
 			}
 			<-wdone
+			if sc.CloseKind == "peer-at-once" {
+				unblockedAfter = 0
+				_ = tr.Close(true)
+
+				return
+			}
 			// everything exchanged: now a read blocks, and the session is ended under it
 			rdone := make(chan struct{})
 			var t0 time.Duration
@@ -374,6 +394,10 @@ func runC16(env *Env, s Scenario) {
 			if lateWriteErr == nil {
 				env.Fail("write-after-close-reported-success", sc.Transport, "400 writes over 200ms after the transport had been closed all reported success")
 			}
+		}
+		if sc.CloseKind == "peer-at-once" {
+			// the peer left without reading: what it did not take is no concern here
+			sg = toSrv
 		}
 		if !bytes.Equal(sg, toSrv) {
 			i := 0
